@@ -8,6 +8,7 @@ ClassVar, single class or 2-3 inheritance levels with re-declared fields), ALL 2
 keys; the real from_dict result vs the expectation computed from the stdlib's own view of the
 class (dataclasses.fields), freshness of factory results, and the positional/keyword split of
 the generated call (captured source) vs the model's `assemble`.
+Inherited members over arbitrary class graphs: harness/c07_mro.py (theorems Mashu.Mro.*).
 """
 from __future__ import annotations
 
@@ -25,6 +26,10 @@ THEOREMS = [
     "Mashu.absent_takes_default",
     "Mashu.noninit_never_read",
     "Mashu.never_defaulted",
+    "Mashu.Mro.collect_eq_spec",
+    "Mashu.Mro.builder_view_eq_dataclasses",
+    "Mashu.Mro.walk_pinned",
+    "Mashu.Mro.nearest_first_walk_differs",
 ]
 RULE = (
     "layout = 1-3 class levels declaring 1-5 fields in total from kinds {required, default, default_factory} x kw_only x init=False (+ InitVar and ClassVar members), "
@@ -270,11 +275,28 @@ def run(ctx):
         k = min(250, n - done)
         run_layouts(ctx, [gen_layout(ctx.rng) for _ in range(k)])
         done += k
+    from . import c07_mro
+
+    corpus = [f["witness"]["graph"] for f in ctx.known if f.get("status") == "fixed" and "graph" in (f.get("witness") or {})]
+    if corpus:
+        ctx.bump("corpus(fixed findings)", len(corpus))
+        c07_mro.run_graphs(ctx, corpus)
+    ng = 400 if ctx.tier == "quick" else 6000
+    done = 0
+    while done < ng and ctx.time_left() > 20:
+        k = min(200, ng - done)
+        c07_mro.run_graphs(ctx, [c07_mro.gen_graph(ctx.rng) for _ in range(k)])
+        done += k
     ctx.assumptions += [
         "the dataclass __init__ (parameter binding, default application, a fresh factory call per instance) is the stdlib's; the expectation is computed from dataclasses.fields of the very class",
     ]
 
 
 def replay(ctx, body):
+    if "graph" in body["case"]:
+        from . import c07_mro
+
+        c07_mro.run_graphs(ctx, [body["case"]["graph"]])
+        return ctx.finish()
     run_layouts(ctx, [body["case"]["layout"]])
     return ctx.finish()
